@@ -200,3 +200,107 @@ Proof. vm_compute. reflexivity. Qed.
 
 Example nv_err : render_partials nv_render (B "home") [B "a"; B "zz"] = None.
 Proof. vm_compute. reflexivity. Qed.
+
+(* Which partials exist: Render = exact lookup in the set of compiled templates (one
+   key per file of the tree), then execution.  The result of RenderPartials is then
+   determined by plain membership of the literal names T.partial/p in the tree. *)
+Section L.
+  Variable tree : list bytes.
+  Variable exec : bytes -> option bytes.
+  Notation rl := (render_lookup tree exec).
+
+  Lemma render_lookup_none n : rl n = None <-> mem n tree = false \/ exec n = None.
+  Proof.
+    unfold render_lookup. destruct (mem n tree) eqn:M.
+    - split; [intros H; right; exact H|intros [H|H]; [discriminate|exact H]].
+    - split; [intros _; left; reflexivity|reflexivity].
+  Qed.
+
+  Lemma render_lookup_some n b : rl n = Some b -> mem n tree = true /\ exec n = Some b.
+  Proof.
+    unfold render_lookup. destruct (mem n tree) eqn:M; [intros H; split; [reflexivity|exact H]|discriminate].
+  Qed.
+
+  Theorem unknown_name_errors t ps :
+    (exists p, In p ps /\ ~ In (partial_name t p) tree) ->
+    render_partials rl t ps = None.
+  Proof.
+    intros [p [Hp Hn]]. apply error_atomic. exists p. split; [exact Hp|].
+    apply render_lookup_none. left. apply mem_false_In. exact Hn.
+  Qed.
+
+  Theorem spec_tree t ps : spec17 tree exec t ps (render_partials rl t ps).
+  Proof.
+    destruct (render_partials rl t ps) as [m|] eqn:E; simpl.
+    - destruct (keys_exact _ _ _ _ E) as [Hnd Hk].
+      pose proof (content_alone _ _ _ _ E) as Hc.
+      assert (Hs : forall p, In p ps -> exists b, rl (partial_name t p) = Some b /\ lookup p m = Some b).
+      { intros p Hp. pose proof (proj2 (Hk p) Hp) as Hin.
+        apply lookup_In_keys in Hin. destruct Hin as [b Hb].
+        exists b. split; [rewrite <- (Hc p Hp); exact Hb|exact Hb]. }
+      split; [|split; [exact Hnd|split; [exact Hk|]]].
+      + intros p Hp. destruct (Hs p Hp) as [b [Hr _]].
+        unfold partial_exists. apply render_lookup_some in Hr. exact (proj1 Hr).
+      + intros p Hp. destruct (Hs p Hp) as [b [Hr Hl]].
+        apply render_lookup_some in Hr. destruct Hr as [_ Hx].
+        split; [rewrite Hl, Hx; reflexivity|rewrite Hl; discriminate].
+    - apply error_atomic in E. destruct E as [p [Hp Hn]].
+      exists p. split; [exact Hp|]. apply render_lookup_none in Hn. exact Hn.
+  Qed.
+
+  (* ... and the result is a success exactly when every requested literal name is a file
+     of the tree whose template executes *)
+  Theorem success_iff_all_exist t ps :
+    (exists m, render_partials rl t ps = Some m) <->
+    forall p, In p ps -> In (partial_name t p) tree /\ exec (partial_name t p) <> None.
+  Proof.
+    split.
+    - intros [m E] p Hp. pose proof (spec_tree t ps) as S. rewrite E in S; simpl in S.
+      destruct S as [Hex [_ [_ Hc]]]. split.
+      + apply mem_In. exact (Hex p Hp).
+      + destruct (Hc p Hp) as [He Hne]. rewrite <- He. exact Hne.
+    - intros H. destruct (render_partials rl t ps) as [m|] eqn:E; [exists m; reflexivity|].
+      exfalso. apply error_atomic in E. destruct E as [p [Hp Hn]].
+      destruct (H p Hp) as [Hin Hx]. apply render_lookup_none in Hn.
+      destruct Hn as [Hn|Hn]; [apply mem_false_In in Hn; contradiction|contradiction].
+  Qed.
+End L.
+
+(* The exact lookup is needed: a Render that resolves the requested name like a file
+   path accepts requests for partials that do not exist ("b/", "./a", "x/../b", the page
+   itself as "../cart", a partial of another template) and hands out content for them. *)
+Definition nv_tree : list bytes :=
+  [B "cart"; B "cart.partial/a"; B "cart.partial/b"; B "cart.partial/x/y"; B "other"; B "other.partial/z"].
+
+Definition nv_exec (n : bytes) : option bytes := Some (B "<" ++ n ++ B ">").
+
+Lemma resolving_lookup_refuted :
+  exists ps m,
+    (forall p, In p ps -> partial_exists nv_tree (B "cart") p = false) /\
+    render_partials (resolving_lookup nv_tree nv_exec) (B "cart") ps = Some m /\
+    render_partials (render_lookup nv_tree nv_exec) (B "cart") ps = None.
+Proof.
+  exists [B "b/"; B "./a"; B "nothing/../b"; B "x//y"; B "../cart"; B "../other.partial/z"].
+  eexists. split; [|split].
+  - intros p Hp. repeat (destruct Hp as [<-|Hp]; [vm_compute; reflexivity|]). destruct Hp.
+  - vm_compute. reflexivity.
+  - vm_compute. reflexivity.
+Qed.
+
+(* non-vacuity: literal names decide; decorated names and decorated template names do not exist *)
+Example nv_tree_ok :
+  render_partials (render_lookup nv_tree nv_exec) (B "cart") [B "x/y"; B "a"] =
+  Some [(B "x/y", B "<cart.partial/x/y>"); (B "a", B "<cart.partial/a>")].
+Proof. vm_compute. reflexivity. Qed.
+
+Example nv_tree_decorated :
+  map (fun tp => render_partials (render_lookup nv_tree nv_exec) (fst tp) [B "a"; snd tp])
+      [(B "cart", B "a/"); (B "cart", B ""); (B "cart", B "A"); (B "cart", B "a.ast.json");
+       (B "./cart", B "b"); (B "cart/", B "b"); (B "Cart", B "b"); (B "", B "b")]
+  = [None; None; None; None; None; None; None; None].
+Proof. vm_compute. reflexivity. Qed.
+
+Example nv_resolve :
+  map resolve_path [B "cart.partial/b/"; B "cart.partial/./a"; B "cart.partial/../cart"; B "./cart.partial/a/."]
+  = [B "cart.partial/b"; B "cart.partial/a"; B "cart"; B "cart.partial/a"].
+Proof. vm_compute. reflexivity. Qed.
